@@ -54,6 +54,11 @@ def run(rep, tier):
     # the byte-array helper functions: the C++ decoder helper returns what the C decoder accepts
     from . import rules_c20
     rules_c20.rule_cpp_helper_semantic(rep, build, rid="C17.D6")
+    # set_nonce / set_counter of every cipher class store the nonce the C functions are then given (short nonces are
+    # padded on the left): the byte layout is decided by evaluating the members (the rule of C14.D3)
+    from . import rules_c14
+    lr = repo.lower(build, group="lib", level="O0", scev=True, tolerate=tuple(u.rel for u in build.group("lib", ("c++",))))
+    rules_c14.rule_helpers(rep, ir.Module.load(lr.json), rid="C17.D7")
 
 
 def public_headers():
